@@ -326,7 +326,7 @@ pub fn gen_seed(rng: &mut Rng, miri: bool) -> Seed {
         }
         3 => {
             let files = c15::gen_files(rng, if miri { 2 } else { 6 }, 80);
-            let plan = PackPlan { names_after_bodies: rng.bool(), reverse_bodies: rng.bool(), extra_padding: rng.bool(), shared_name_storage: false };
+            let plan = PackPlan { no_tail_padding: rng.chance(1, 4), names_after_bodies: rng.bool(), reverse_bodies: rng.bool(), extra_padding: rng.bool(), shared_name_storage: false };
             Seed { kind: "pack", bytes: pack_build(&files, &plan, rng), be: true }
         }
         4 => {
